@@ -10,7 +10,7 @@ from ref import pus as RP
 from ref.crc16 import crc16
 
 PROPERTY = "C03"
-LEVEL = "exploration"
+LEVEL = "model_checking"  # bounded-exhaustive enumeration of executions against a reference model (DESIGN.md 1, 2.1)
 EXHAUSTIVE = True
 RULE = (
     "telemetry = (service 8, subservice 8, APID 11, seq count 14, message counter 16, destination ID 16, time reference 4, "
